@@ -353,3 +353,41 @@ Example ex_data_durable :
   length (m_data (crash_of medium_empty ex_c 11 (mkChoice [] [] 0 1))) = 2.
 Proof. vm_compute. reflexivity. Qed.
 
+(** ---- non-vacuity, two lives: the first life of the example crashes after its commit cycle with
+    nothing lost; the second life (on those media) uploads 8 bytes of key 6 into the RESTORED block
+    (at the restored write offset 20 rounded up to a sector: 32), finalizes with a record in slot 4
+    and crashes before any state write, its data write surviving.  The record of the FIRST life
+    still resolves (through the state file the second life started with); byte 19 of the region is
+    owned by upload 0 of life 0, byte 32 by upload 0 of life 1 — on the raw medium both carry the
+    per-life tag 0, which is why uploads are identified by (life, index); the new record does not
+    resolve (its epoch is not in any state file). ---- *)
+Definition ex_m1 : medium irec := crash_of medium_empty ex_c 11 ex_all.
+Definition ex_tr2 : list cev :=
+  [CPutStart 0 6%N 8%Z; CData 0 8%Z; CWriterDone 0 true; CFinalize 0 2002%N [IwNew 4]].
+Definition ex_c2 : cst :=
+  match crun ex_g ex_cfg (cinit ex_g ex_m1 50) ex_tr2 with Some c => c | None => cinit ex_g ex_m1 50 end.
+Definition ex_lf1 : CrashRepeat.life := CrashRepeat.mkLife ex_cfg 0 ex_c 11 ex_all.
+Definition ex_lf2 : CrashRepeat.life := CrashRepeat.mkLife ex_cfg 50 ex_c2 2 ex_all.
+Definition ex_m2 : medium irec := crash_of ex_m1 ex_c2 2 ex_all.
+
+Example ex2_history : CrashRepeat.lives ex_g (([] ++ [ex_lf1]) ++ [ex_lf2])
+   (crash_of (crash_of medium_empty (CrashRepeat.lf_c ex_lf1) (CrashRepeat.lf_n ex_lf1) (CrashRepeat.lf_ch ex_lf1))
+             (CrashRepeat.lf_c ex_lf2) (CrashRepeat.lf_n ex_lf2) (CrashRepeat.lf_ch ex_lf2)).
+Proof.
+  apply CrashRepeat.lives_snoc.
+  - apply CrashRepeat.lives_snoc; [constructor|]. exists ex_tr. vm_compute. reflexivity.
+  - exists ex_tr2. vm_compute. reflexivity.
+Qed.
+Example ex2_second_life_wrote : length (cs_log ex_c2) = 2 /\ length (m_data ex_m2) = 3.
+Proof. split; vm_compute; reflexivity. Qed.
+Example ex2_old_record_resolves : resolves ex_g ex_m2 3 ex_rec 0.
+Proof. split; vm_compute; reflexivity. Qed.
+Example ex2_owners :
+  CrashRepeatSafe.towner (CrashRepeatSafe.hist_data [ex_lf1; ex_lf2]) (0, 64)%Z 19 None = Some (0, 0) /\
+  CrashRepeatSafe.towner (CrashRepeatSafe.hist_data [ex_lf1; ex_lf2]) (0, 64)%Z 32 None = Some (1, 0) /\
+  byte_owner (m_data ex_m2) (0, 64)%Z 19 None = Some 0 /\ byte_owner (m_data ex_m2) (0, 64)%Z 32 None = Some 0.
+Proof. repeat split; vm_compute; reflexivity. Qed.
+Example ex2_new_record_not_yet :
+  slot_get (m_index ex_m2) 4 None = Some (mkIrec 2 0 6 32 8 2002 0) /\
+  resolve_ref (fst (restart (geom ex_g) (m_state ex_m2))) 0 2 0 2002 = None.
+Proof. split; vm_compute; reflexivity. Qed.
